@@ -19,9 +19,14 @@ Definition ↔ Rust:
 * `walk`, `newIds`, `subtreesOf`              — `TreeStreamerOnce` (visited set; any node with a subtree is queued)
 * `nodeErrs`, `nodePacks`, `rootPacks`        — `check_trees` (`rootPacks` = the root-tree packs inserted since the
                                                  repair of DESIGN §7 #11; `rootFix := false` is the code before it)
+* `checkIndexPacks`                            — which packs enter check's *own* index in `check_packs`:
+                                                 `index_collector.extend(index.packs.clone())`, i.e. the unmarked
+                                                 sections only — the pack list `GlobalIndex::new` gives every reader.
+                                                 `withMarked := true` = the variant where `packs_to_delete` enter too.
 * `reconstructed`, `retype`                   — `index_be.into_index().into_iter()` (index/binarysorted.rs `PackIndexes`:
-                                                 one `IndexPack` per listed pack, tree packs first, every blob
-                                                 typed by the pack, `size: None`)
+                                                 one `IndexPack` per pack of check's index, tree packs first, every
+                                                 blob typed by the pack, `size: None`)
+* `checkW`, `check`                           — `check_repository`; `check = checkW false` is the code
 * `checkPack`, `blobErrs`                     — `check_pack`
 * `check`                                     — `Repository::check` + `check_repository` with `read_data = true`,
                                                  `ReadSubsetOption::All`, no cache, no hot repository
@@ -153,6 +158,15 @@ def indexPackErrs (p : IPack) (toDelete : Bool) : List Err :=
 
 def livePacks (r : Repo) : List IPack := r.index.flatMap (·.packs)
 
+/-- `check_packs`: per index file `index_collector.extend(index.packs.clone())` — the packs whose blobs enter
+check's private index (used by the tree walk, by every look-up of `check_trees`, and, through
+`index_be.into_index()`, by the pack read).  In the code (`withMarked = false`) these are the packs of the
+*unmarked* sections only: exactly what `GlobalIndex::new` (`livePacks`) offers to restore / dump / ls.
+`withMarked = true` models a collector that is also fed the packs of `packs_to_delete` (e.g. moving each pack of
+the `all_packs()` loop into the collector instead of cloning `index.packs`). -/
+def checkIndexPacks (withMarked : Bool) (r : Repo) : List IPack :=
+  r.index.flatMap (fun f => f.packs ++ (if withMarked then f.toDelete else []))
+
 def allIndexPacks (r : Repo) : List (IPack × Bool) :=
   r.index.flatMap (fun f => f.packs.map (·, false) ++ f.toDelete.map (·, true))
 
@@ -223,30 +237,38 @@ def contentErrs (lk : Lookup) : List Id → List Err
       | none => [Err.FileBlobNotInIndex]
       | some _ => []) ++ contentErrs lk l
 
+/-- the subtree of a node that is not a directory: the tree streamers (`TreeStreamerOnce`, the node streamer of
+ls / restore) follow the subtree of *any* node, so — since `fix: check ignored subtrees of non-directory nodes` —
+`check_trees` looks at it as well (null id, missing in the index, else its pack joins the read set). -/
+def subtreeErrs (lk : Lookup) : Option Id → List Err
+  | none => []
+  | some id =>
+    if id = nullId then [Err.NullSubTree] else
+    match lk .tree id with
+    | none => [Err.SubTreeMissingInIndex]
+    | some _ => []
+
+def subtreePacks (lk : Lookup) : Option Id → List Id
+  | none => []
+  | some id => if id = nullId then [] else ((lk .tree id).map (·.pack)).toList
+
 def nodeErrs (lk : Lookup) (n : Node) : List Err :=
   match n.kind with
   | .file =>
-    match n.content with
-    | none => [Err.FileHasNoContent]
-    | some ids => contentErrs lk ids
+    (match n.content with
+      | none => [Err.FileHasNoContent]
+      | some ids => contentErrs lk ids) ++ subtreeErrs lk n.subtree
   | .dir =>
     match n.subtree with
     | none => [Err.NoSubTree]
-    | some id =>
-      if id = nullId then [Err.NullSubTree] else
-      match lk .tree id with
-      | none => [Err.SubTreeMissingInIndex]
-      | some _ => []
-  | .other => []
+    | some id => subtreeErrs lk (some id)
+  | .other => subtreeErrs lk n.subtree
 
 def nodePacks (lk : Lookup) (n : Node) : List Id :=
   match n.kind with
-  | .file => (n.content.getD []).filterMap (fun d => (lk .data d).map (·.pack))
-  | .dir =>
-    match n.subtree with
-    | none => []
-    | some id => if id = nullId then [] else ((lk .tree id).map (·.pack)).toList
-  | .other => []
+  | .file => (n.content.getD []).filterMap (fun d => (lk .data d).map (·.pack)) ++ subtreePacks lk n.subtree
+  | .dir => subtreePacks lk n.subtree
+  | .other => subtreePacks lk n.subtree
 
 def roots (r : Repo) : List Id := newIds [] (r.snaps.map (·.tree))
 
@@ -258,9 +280,10 @@ def rootPacks (r : Repo) (lk : Lookup) : List Id :=
 def retype (p : IPack) : IPack :=
   { p with blobs := p.blobs.map (fun b => { b with tpe := packType p }), size := none }
 
-def reconstructed (r : Repo) : List IPack :=
-  (((livePacks r).filter (fun p => packType p == .tree)) ++
-    ((livePacks r).filter (fun p => packType p == .data))).map retype
+def reconstructedOf (ps : List IPack) : List IPack :=
+  ((ps.filter (fun p => packType p == .tree)) ++ (ps.filter (fun p => packType p == .data))).map retype
+
+def reconstructed (r : Repo) : List IPack := reconstructedOf (checkIndexPacks false r)
 
 def blobErrs (f : PFile) : Nat → List Blob → List Err
   | _, [] => []
@@ -297,18 +320,26 @@ def walkPacks (lk : Lookup) (out : List (Id × List Node)) : List Id :=
 def readSet (rootFix : Bool) (r : Repo) (lk : Lookup) (out : List (Id × List Node)) : List Id :=
   (if rootFix then rootPacks r lk else []) ++ walkPacks lk out
 
-def packErrs (z : Sizes) (r : Repo) (packs : List Id) : List Err :=
-  ((reconstructed r).filter (fun p => !(missing r).contains p.id && packs.contains p.id)).flatMap
+def packErrsOf (z : Sizes) (r : Repo) (ps : List IPack) (packs : List Id) : List Err :=
+  ((reconstructedOf ps).filter (fun p => !(missing r).contains p.id && packs.contains p.id)).flatMap
     (checkPack z r)
 
+def packErrs (z : Sizes) (r : Repo) (packs : List Id) : List Err := packErrsOf z r (checkIndexPacks false r) packs
+
 /-- `Repository::check(CheckOptions { read_data: true, .. })`: Error-level findings (as a list; the
-driver prints the set), or the command itself failing. -/
-def check (z : Sizes) (rootFix : Bool) (r : Repo) (lk : Lookup) (fuel : Nat) : Verdict :=
+driver prints the set), or the command itself failing.  `lk` is the look-up of check's own index, whose packs
+are `checkIndexPacks withMarked r`. -/
+def checkW (withMarked : Bool) (z : Sizes) (rootFix : Bool) (r : Repo) (lk : Lookup) (fuel : Nat) : Verdict :=
   if !r.snapsOk || !r.indexOk then .cmdErr else
   match walk (readTree r lk) fuel (roots r) (roots r) with
   | none => .findings (indexErrs r ++ listErrs z r ++ [Err.ErrorCheckingTrees])
   | some out =>
-    .findings (indexErrs r ++ listErrs z r ++ walkErrs lk out ++ packErrs z r (readSet rootFix r lk out))
+    .findings (indexErrs r ++ listErrs z r ++ walkErrs lk out ++
+      packErrsOf z r (checkIndexPacks withMarked r) (readSet rootFix r lk out))
+
+/-- the code: check's own index holds the unmarked packs only. -/
+def check (z : Sizes) (rootFix : Bool) (r : Repo) (lk : Lookup) (fuel : Nat) : Verdict :=
+  checkW false z rootFix r lk fuel
 
 /-! ### restorability, executable (what reading every snapshot back needs) -/
 
@@ -332,11 +363,14 @@ def restoreOk (r : Repo) (lk : Lookup) (fuel : Nat) : Bool :=
 
 /-- The driver's index: first matching entry in index-file order (any choice satisfying `LkSound` is
 allowed by the theorems; the real one is a binary search over an unstable sort). -/
-def lkFirst (r : Repo) : Lookup := fun t id =>
-  (livePacks r).findSome? fun p =>
+def lkOf (ps : List IPack) : Lookup := fun t id =>
+  ps.findSome? fun p =>
     if packType p = t then
       (p.blobs.find? (fun b => b.id == id)).map
         (fun b => { pack := p.id, offset := b.offset, length := b.length, ulen := b.ulen })
     else none
+
+/-- the readers' index (`GlobalIndex::new`: unmarked sections only) -/
+def lkFirst (r : Repo) : Lookup := lkOf (livePacks r)
 
 end Rustic.Check
